@@ -262,5 +262,5 @@ func gen(r *hv.Rng, i int, tier string) (string, hv.Val) {
 func main() {
 	confload.Init()
 	defer confload.Cleanup()
-	hv.Main(&hv.Spec{Prop: "C14", Gen: gen, Impl: impl, NQuick: 900, NThorough: 60000})
+	hv.Main(&hv.Spec{Prop: "C14", Gen: gen, Impl: impl, NQuick: 1800, NThorough: 60000})
 }
